@@ -1,7 +1,7 @@
 (* C02 - compile-time constant arithmetic is exact and matches the Go specification.
    Only statements, `exact`, and Print Assumptions live here. *)
-From Coq Require Import ZArith List Bool QArith.
-From Verif Require Import Facts_consts ConstsM ConstEvalM Consts_proofs Consts_proofs2 Consts_proofs3 Consts_proofs4.
+From Coq Require Import ZArith List Bool QArith Qabs.
+From Verif Require Import Facts_consts ConstsM ConstEvalM Consts_proofs Consts_proofs2 Consts_proofs3 Consts_proofs4 Round_core Round_proofs Round_spec Round_arith.
 Open Scope Z_scope.
 
 (* ---- the full statement, over the model of constant.go: every arithmetic
@@ -304,6 +304,129 @@ Example C02_example_ordered_cmp_complex :
   check_binary OLt {| ti_kind := KComplex128; ti_untyped := false; ti_c := Num (F64 (FFin false 1 0)) |}
                    {| ti_kind := KInt; ti_untyped := true; ti_c := Num (I64 2) |} = EErr CInvalidOp.
 Proof. exact ordered_cmp_complex_example. Qed.
+
+(* ==== correct rounding (for all inputs, unbounded Z and Q) ====
+   T k is 2^k in Q.  in_format prec emin y: y = k * 2^c with |k| < 2^prec and
+   emin <= c.  rounds_to prec emin x r (Round_spec.v): r belongs to the
+   format, no element of the format is nearer to x than r, and r = q' * 2^e'
+   with |x - r| <= 2^e' / 2 and q' even in the case of equality (ties to even).
+   pairQ (q', e') = q' * 2^e'. *)
+
+(* ---- round_mag: the magnitude (a # d) * 2^e, given as its integer part
+   m = a / d > 0 and the sticky flag (a mod d <> 0; then m has more than prec
+   bits), is rounded to the nearest element of the format, ties to even; the
+   exponent of the result is explicit *)
+Theorem C02_round_mag :
+  (forall prec emin a d e, 0 < prec -> 0 < a / Zpos d ->
+     negb (a mod Zpos d =? 0) = false \/ prec < bitlen (a / Zpos d) ->
+     rounds_to prec emin ((a # d) * T e)
+       (pairQ (round_mag prec emin (Z.to_pos (a / Zpos d)) e (negb (a mod Zpos d =? 0))))) /\
+  (forall prec emin m e st, 0 < prec ->
+     snd (round_mag prec emin m e st) =
+       Z.max e (match emin with
+                | Some em => Z.max (bitlen (Zpos m) + e - prec) em
+                | None => bitlen (Zpos m) + e - prec
+                end) /\
+     0 <= fst (round_mag prec emin m e st) <= 2 ^ prec).
+Proof. exact (conj round_mag_rounds round_mag_exponent). Qed.
+Print Assumptions C02_round_mag.
+
+(* ---- properties of every rounding that satisfies rounds_to: monotone,
+   exact on the elements of the format, idempotent *)
+Theorem C02_rounding_laws :
+  (forall prec emin x1 x2 r1 r2,
+     rounds_to prec emin x1 r1 -> rounds_to prec emin x2 r2 -> (x1 < x2)%Q -> (r1 <= r2)%Q) /\
+  (forall prec emin x r, rounds_to prec emin x r -> in_format prec emin x -> (r == x)%Q) /\
+  (forall prec emin x r r', rounds_to prec emin x r -> rounds_to prec emin r r' -> (r' == r)%Q).
+Proof. exact (conj rounds_to_monotone (conj rounds_to_exact rounds_to_idempotent)). Qed.
+Print Assumptions C02_rounding_laws.
+
+(* ---- round_fl, round_Z, round_rat (through quo_bits): floats, integers and
+   rationals n / d rounded to a format, once *)
+Theorem C02_round_functions :
+  (forall f x r, 0 < f_prec f -> round_fl f x = Some r ->
+     rounds_to (f_prec f) (f_emin f) (flQ x) (flQ r)) /\
+  (forall f z r, 0 < f_prec f -> round_Z f z = Some r ->
+     rounds_to (f_prec f) (f_emin f) (inject_Z z) (flQ r)) /\
+  (forall f n d r, 0 < f_prec f -> round_rat f n d = Some r ->
+     rounds_to (f_prec f) (f_emin f) (n # d) (flQ r)) /\
+  (forall f x1 x2 r1 r2, 0 < f_prec f ->
+     round_fl f x1 = Some r1 -> round_fl f x2 = Some r2 -> (flQ x1 < flQ x2)%Q -> (flQ r1 <= flQ r2)%Q) /\
+  (forall f n1 d1 n2 d2 r1 r2, 0 < f_prec f ->
+     round_rat f n1 d1 = Some r1 -> round_rat f n2 d2 = Some r2 -> (n1 # d1 < n2 # d2)%Q -> (flQ r1 <= flQ r2)%Q) /\
+  (forall f x r r', 0 < f_prec f -> round_fl f x = Some r -> round_fl f r = Some r' -> (flQ r' == flQ r)%Q).
+Proof.
+  exact (conj round_fl_rounds (conj round_Z_rounds (conj round_rat_rounds
+        (conj round_fl_monotone (conj round_rat_monotone round_fl_idempotent))))).
+Qed.
+Print Assumptions C02_round_functions.
+
+(* ---- overflow to an error: for a format with a maximal exponent mx (and
+   emin + prec <= mx) rounding fails exactly when the magnitude is at least
+   2^mx - 2^(mx - prec - 1), the midpoint between the largest element and
+   2^mx, which is a tie rounded to the even neighbour 2^mx *)
+Theorem C02_round_overflow :
+  (forall f mx x, fmt_ok f mx ->
+     (round_fl f x = None <-> (T mx - T (mx - f_prec f - 1) <= Qabs (flQ x))%Q)) /\
+  (forall f mx n d, fmt_ok f mx ->
+     (round_rat f n d = None <-> (T mx - T (mx - f_prec f - 1) <= Qabs (n # d))%Q)) /\
+  fmt_ok fmt64 1024 /\ fmt_ok fmt32 128.
+Proof. exact (conj round_fl_overflow (conj round_rat_overflow (conj fmt64_ok fmt32_ok))). Qed.
+Print Assumptions C02_round_overflow.
+
+(* ---- big.Float Add, Sub, Mul, Quo, SetInt, SetRat at the precision of
+   floatConst (the generated gen_bigfloat_prec, no exponent limits): the
+   exact result rounded once; big_rounds x r = rounds_to gen_bigfloat_prec None x (flQ r) *)
+Theorem C02_bigfloat_arith :
+  (forall x y, big_rounds (flQ x + flQ y) (fl_add x y)) /\
+  (forall x y, big_rounds (flQ x - flQ y) (fl_sub x y)) /\
+  (forall x y, big_rounds (flQ x * flQ y) (fl_mul x y)) /\
+  (forall x y, fl_is_zero y = false -> big_rounds (flQ x / flQ y) (fl_quo x y)) /\
+  (forall z, big_rounds (inject_Z z) (big_of_Z z)) /\
+  (forall n d, big_rounds (n # d) (big_of_rat n d)).
+Proof.
+  exact (conj fl_add_rounds (conj fl_sub_rounds (conj fl_mul_rounds
+        (conj fl_quo_rounds (conj big_of_Z_rounds big_of_rat_rounds))))).
+Qed.
+Print Assumptions C02_bigfloat_arith.
+
+(* ---- conversion to float64 and float32 (floatConst.representedBy and, since
+   fix 9f165da, ratConst.representedBy): the value rounded once to 53 (24)
+   bits with the IEEE exponent range, subnormals included (last place at least
+   2^-1074, 2^-149), of magnitude below 2^1024 (2^128); rejected with
+   "overflows" exactly from 2^1024 - 2^970 (2^128 - 2^103) on; never a fault.
+   f64_rounds x r = rounds_to 53 (Some (-1074)) x (flQ r) /\ |flQ r| < 2^1024 *)
+Theorem C02_to_float :
+  (forall x,
+     (repr_bigf KFloat64 x = Err EOverflows <-> (T 1024 - T 970 <= Qabs (flQ x))%Q) /\
+     (forall c, repr_bigf KFloat64 x = Ok c -> exists r, c = F64 r /\ f64_rounds (flQ x) r) /\
+     repr_bigf KFloat64 x <> Fault) /\
+  (forall x,
+     (repr_bigf KFloat32 x = Err EOverflows <-> (T 128 - T 103 <= Qabs (flQ x))%Q) /\
+     (forall c, repr_bigf KFloat32 x = Ok c -> exists r, c = F64 r /\ f32_rounds (flQ x) r) /\
+     repr_bigf KFloat32 x <> Fault) /\
+  (forall n d, (d =? 1)%positive = false ->
+     (repr_rat KFloat64 n d = Err EOverflows <-> (T 1024 - T 970 <= Qabs (n # d))%Q) /\
+     (forall c, repr_rat KFloat64 n d = Ok c -> exists r, c = F64 r /\ f64_rounds (n # d) r) /\
+     repr_rat KFloat64 n d <> Fault) /\
+  (forall n d, (d =? 1)%positive = false ->
+     (repr_rat KFloat32 n d = Err EOverflows <-> (T 128 - T 103 <= Qabs (n # d))%Q) /\
+     (forall c, repr_rat KFloat32 n d = Ok c -> exists r, c = F64 r /\ f32_rounds (n # d) r) /\
+     repr_rat KFloat32 n d <> Fault).
+Proof. exact (conj repr_bigf_float64 (conj repr_bigf_float32 (conj repr_rat_float64 repr_rat_float32))). Qed.
+Print Assumptions C02_to_float.
+
+(* non-vacuity of the rounding theorems: ties to even in both directions, a
+   subnormal result, the overflow threshold of float64 *)
+Example C02_example_rounding :
+  round_fl fmt64 (FFin false (2 ^ 53 + 1) 0) = Some (FFin false 1 53) /\
+  round_fl fmt64 (FFin false (2 ^ 53 + 3) 0) = Some (FFin false (2 ^ 51 + 1) 2) /\
+  round_fl fmt64 (FFin false 3 (-1075)) = Some (FFin false 1 (-1073)) /\
+  round_fl fmt64 (FFin false 1 (-1075)) = Some (FZero false) /\
+  round_fl fmt64 (FFin false (2 ^ 54 - 1) 970) = None /\
+  round_fl fmt64 (FFin false (2 ^ 55 - 3) 969) = Some (FFin false (2 ^ 53 - 1) 971) /\
+  round_rat fmt32 1 3 = Some (FFin false 11184811 (-25)).
+Proof. vm_compute. repeat split. Qed.
 
 (* ---- strings and booleans *)
 Theorem C02_str_ops : forall a b,
